@@ -357,6 +357,145 @@ def reader_refuse(rf, rp):
 
 
 
+
+# ---- the file-level functions on a host model of std::fs (round 3)
+class _FS:
+    """files as strings; the documented semantics of File::create / File::open / OpenOptions / fs::write / fs::read_to_string"""
+
+    def __init__(self, files):
+        self.files = dict(files)
+
+
+def _file_level(facts, old):
+    """write_graph then read_graph interpreted on a host file system whose target file initially holds `old` (None: absent).  serde_json is a host:
+    to_writer writes the fixed text ENC at the handle's position, from_reader / from_str accept exactly ENC (serde_json rejects trailing characters).
+    -> (content after write_graph, result of read_graph)"""
+    from .. import minirust
+    ENC = '{"enc":1}'
+    PATH = 'g.qgraph'
+    fs = _FS({} if old is None else {PATH: old})
+    JG = minirust.Obj('JsonGraph', {'to_graph': lambda a: ('Ok', 'GRAPH')}, strict=True)
+
+    class Handle(minirust.Obj):
+        def __init__(self, pos, readable=True, writable=True, append=False):
+            self.pos, self.readable, self.writable, self.append = pos, readable, writable, append
+            minirust.Obj.__init__(self, 'file', {'flush': lambda a: ('Ok', ()), 'sync_all': lambda a: ('Ok', ()), 'sync_data': lambda a: ('Ok', ()),
+                                                 'write_all': self._write_all, 'set_len': self._set_len, 'into_inner': lambda a: ('Ok', self), 'by_ref': lambda a: self,
+                                                 'get_mut': lambda a: self, 'get_ref': lambda a: self}, strict=True)
+
+        def write(self, text):
+            if not self.writable:
+                raise minirust.NoEval('write through a read-only handle')
+            cur = fs.files.get(PATH, '')
+            pos = len(cur) if self.append else self.pos
+            fs.files[PATH] = cur[:pos] + text + cur[pos + len(text):]
+            self.pos = pos + len(text)
+
+        def _write_all(self, a):
+            t = a[0]
+            if isinstance(t, list) and all(isinstance(x, int) for x in t):
+                t = bytes(t).decode()
+            if not isinstance(t, str):
+                raise minirust.NoEval('write_all(%r)' % (t,))
+            self.write(t)
+            return ('Ok', ())
+
+        def _set_len(self, a):
+            fs.files[PATH] = fs.files.get(PATH, '')[:a[0]].ljust(a[0], '\0')
+            return ('Ok', ())
+
+    class Opts(minirust.Obj):
+        def __init__(self):
+            self.o = {'read': False, 'write': False, 'append': False, 'truncate': False, 'create': False, 'create_new': False}
+            m = {}
+            for k in self.o:
+                m[k] = (lambda a, _k=k: self._set(_k, a[0]))
+            m['open'] = self._open
+            minirust.Obj.__init__(self, 'OpenOptions', m, strict=True)
+
+        def _set(self, k, v):
+            self.o[k] = bool(v)
+            return self
+
+        def _open(self, a):
+            o = self.o
+            exists = PATH in fs.files
+            if not (o['write'] or o['append']) and (o['truncate'] or o['create'] or o['create_new']):
+                return ('Err', 'InvalidInput')
+            if o['create_new'] and exists:
+                return ('Err', 'AlreadyExists')
+            if not exists and not (o['create'] or o['create_new']):
+                return ('Err', 'NotFound')
+            if not exists:
+                fs.files[PATH] = ''
+            if o['truncate']:
+                fs.files[PATH] = ''
+            return ('Ok', Handle(0, o['read'], o['write'] or o['append'], o['append']))
+
+    def hc(c, e, args):
+        last = c.rsplit('::', 1)[-1]
+        if c.endswith('::from_graph') and 'JsonGraph' in c:
+            args()
+            return ('Ok', JG)
+        if c in ('std::fs::File::create', 'std::fs::File::create_new') and len(e['args']) == 1:
+            args()
+            if last == 'create_new' and PATH in fs.files:
+                return ('Err', 'AlreadyExists')
+            fs.files[PATH] = ''
+            return ('Ok', Handle(0, False, True))
+        if c == 'std::fs::File::open' and len(e['args']) == 1:
+            args()
+            return ('Ok', Handle(0, True, False)) if PATH in fs.files else ('Err', 'NotFound')
+        if c in ('std::fs::OpenOptions::new', 'std::fs::File::options'):
+            return Opts()
+        if c == 'std::fs::write' and len(e['args']) == 2:
+            t = args()[1]
+            if not isinstance(t, str):
+                raise minirust.NoEval('fs::write(%r)' % (t,))
+            fs.files[PATH] = t
+            return ('Ok', ())
+        if c == 'std::fs::read_to_string' and len(e['args']) == 1:
+            args()
+            return ('Ok', fs.files[PATH]) if PATH in fs.files else ('Err', 'NotFound')
+        if c.startswith(('std::io::BufWriter', 'std::io::BufReader', 'std::io::LineWriter')) and last in ('new', 'with_capacity') and e['args']:
+            return args()[-1]
+        if c.startswith('serde_json::') and last in ('to_writer', 'to_writer_pretty') and len(e['args']) == 2:
+            w, v = args()
+            if not isinstance(w, Handle) or v is not JG:
+                raise minirust.NoEval('serde_json::to_writer(%r, %r)' % (w, v))
+            w.write(ENC)
+            return ('Ok', ())
+        if c.startswith('serde_json::') and last in ('to_string', 'to_string_pretty') and len(e['args']) == 1:
+            if args()[0] is not JG:
+                raise minirust.NoEval('serde_json::to_string of something else')
+            return ('Ok', ENC)
+        if c.startswith('serde_json::') and last == 'from_reader' and len(e['args']) == 1:
+            r = args()[0]
+            if not isinstance(r, Handle) or not r.readable:
+                raise minirust.NoEval('serde_json::from_reader(%r)' % (r,))
+            return ('Ok', JG) if fs.files.get(PATH, '')[r.pos:].strip() == ENC else ('Err', 'SerdeError(trailing characters / syntax)')
+        if c.startswith('serde_json::') and last == 'from_str' and len(e['args']) == 1:
+            t = args()[0]
+            return ('Ok', JG) if isinstance(t, str) and t.strip() == ENC else ('Err', 'SerdeError')
+        if c.startswith(('std::fs::', 'std::io::', 'serde_json::')):
+            raise minirust.NoEval('%s is not modelled' % c)
+        return NotImplemented
+
+    def run(key, *args):
+        it = minirust.Interp(fuel=5000, facts=facts, inline=lambda c: c.startswith('json::') and not c.endswith(('::from_graph', '::to_graph')))
+        it.host_call = hc
+
+        def hm(callee, nm, recv, a):
+            if isinstance(recv, tuple) and len(recv) == 2 and recv[0] == 'Err' and nm == 'map_err':
+                return ('Err', 'JsonError')
+            return NotImplemented
+        it.host_method = hm
+        return it.local_call(key, list(args))
+    w = run('json::write_graph', minirust.Obj('graph', {}, strict=True), PATH)
+    after = fs.files.get(PATH)
+    r = run('json::read_graph', PATH)
+    return ENC, w, after, r
+
 def _run_own(ck):
     facts = ck.facts
     ck.decided('D1 field provenance agrees between writer and reader: type, phase, coordinates (through Coord::new / coord() / qubit() / row()), input/output order through an ORDERED map',
@@ -564,6 +703,148 @@ def _run_own(ck):
     ck.control('R-MARKER flags a neutral marker the reader does not treat as neutral', m2 is True)
 
 
+def _file_rules(ck):
+    """write_graph / read_graph: whatever the target file held before, after write_graph it holds exactly the encoding and read_graph decodes it"""
+    from .. import minirust
+    facts = ck.facts
+    if not (ck.has_fn('json::write_graph') and ck.has_fn('json::read_graph')):
+        ck.violation('E3-file', 'write_graph', 'quizx/src/json.rs', 'anchor-missing: json::write_graph / json::read_graph')
+        return
+    site = ck.site('json::write_graph')
+    cases = [('the file does not exist', None), ('the file holds a LONGER encoding (a larger diagram saved earlier under the same name)', '{"enc":1,"older":"xxxxxxxxxxxxxxxxxxxxxxxx"}'),
+             ('the file holds a shorter text', '{}'), ('the file is empty', '')]
+    n = 0
+    try:
+        bad = []
+        for name, old in cases:
+            try:
+                enc, w, after, r = _file_level(facts, old)
+            except minirust.Panics as ex:
+                bad.append('%s: panics (%s)' % (name, ex))
+                continue
+            n += 1
+            if not (isinstance(w, tuple) and w[0] == 'Ok'):
+                bad.append('%s: write_graph returns %r' % (name, w))
+            elif after != enc:
+                bad.append('%s: after write_graph the file holds %r, the encoding is %r' % (name, after, enc))
+            elif not (isinstance(r, tuple) and r[0] == 'Ok' and r[1] == 'GRAPH'):
+                bad.append('%s: read_graph of the file just written returns %r' % (name, r))
+        ck.ob('E3-file', 'write_graph-then-read_graph/the-file-holds-exactly-the-encoding', not bad, site, '; '.join(bad)[:600], sample={'cases': [c[0] for c in cases]})
+        ck.floor('E3-file-cases', n, 4)
+    except (minirust.NoEval, minirust.Proceed, TypeError, KeyError, IndexError, AttributeError) as ex:
+        ck.ob3('E3-file', 'write_graph-then-read_graph/the-file-holds-exactly-the-encoding', None, site, 'the file-level functions are not evaluable on the host file system (%s: %s)' % (type(ex).__name__, str(ex)[:160]))
+
+
+def _scalar_roundtrip(ck):
+    """the scalar clause of the statement by evaluation: JsonScalar::from(&Scalar4) and Scalar4::try_from(&JsonScalar) interpreted (json/scalar.rs,
+    json/phase.rs, scalar.rs, dyadic.rs, phase.rs; Rational64 a host) on every sqrt2^p * e^{i k pi/4} for p over the whole exponent range that large
+    simplified circuits reach, and on scalars that are not of that form"""
+    import cmath
+    from .. import minirust
+    from . import C07
+    facts = ck.facts
+    S4, DY = C07.S4, C07.DY
+    ENC = 'json::scalar::<impl std::convert::From<&scalar::Scalar4> for json::JsonScalar>::from'
+    DEC = 'json::scalar::<impl std::convert::TryFrom<&json::JsonScalar> for scalar::Scalar4>::try_from'
+    ISONE = '<%s as num::One>::is_one' % S4
+    site = ck.site(ENC) if ck.has_fn(ENC) else 'quizx/src/json/scalar.rs'
+    if not (ck.has_fn(ENC) and ck.has_fn(DEC)):
+        ck.violation('E3-scalar-json', 'round-trip', site, 'anchor-missing: the JsonScalar conversions')
+        return
+
+    def interp():
+        it = C07._s4_interp(facts)
+        it.inline = lambda c: c.startswith(('scalar::', '<scalar::', '<&scalar::', 'scalar_traits::', 'json::', '<json::'))
+        base = it.host_call
+
+        def hc(c, e, args):
+            if c.rsplit('::', 1)[-1] in ('from_i64', 'from_u64', 'from_i32') and 'Option<' in (e.get('ty') or '') and 'Ratio' in (e.get('ty') or '') and len(e['args']) == 1:
+                a = args()
+                if isinstance(a[0], int) and not isinstance(a[0], bool):
+                    from .. import circsem as cs
+                    return minirust.some(cs.Ph(a[0]))
+            return base(c, e, args)
+        it.host_call = hc
+        hm0 = it.host_method
+
+        def hm(callee, nm, recv, args):
+            import math
+            if isinstance(recv, dict) and recv.get('__struct__') == 'num::Complex' and all(isinstance(recv.get(k_), float) for k_ in ('re', 'im')):
+                if nm == 'to_polar':
+                    return (math.hypot(recv['re'], recv['im']), math.atan2(recv['im'], recv['re']))
+                if nm == 'norm':
+                    return math.hypot(recv['re'], recv['im'])
+                if nm == 'arg':
+                    return math.atan2(recv['im'], recv['re'])
+            return hm0(callee, nm, recv, args)
+        it.host_method = hm
+        return it
+
+    def mk(co):
+        return {'__struct__': S4, '0': [C07._dy_call(facts, DY + '::new', [v, e if v else 0]) for v, e in co]}
+
+    def unit(k, p_):
+        om = list(C07._s4_omega_pow(k))
+        if p_ % 2 == 0:
+            return mk([(c, p_ // 2) for c in om])
+        return mk([(c, (p_ - 1) // 2) for c in C07._s4_mul(tuple(om), (0, 1, 0, -1))])
+    try:
+        bad_exact, bad_marker, bad_float, n = [], [], [], 0
+        float_declined = None
+        for p_ in (-3001, -2400, -1075, -1022, -64, -3, -1, 0, 1, 2, 5, 63, 64, 1023, 1024, 2177, 3001):
+            for k in range(8):
+                s_ = unit(k, p_)
+                what = 'sqrt2^%d * e^(i pi %d/4)' % (p_, k)
+                n += 1
+                try:
+                    one = interp().local_call(ISONE, [minirust.deep_clone(s_)])
+                    if one is not (k == 0 and p_ == 0):
+                        bad_marker.append('is_one(%s) answers %s: from_graph leaves the scalar out exactly when it is one' % (what, one))
+                    enc = interp().local_call(ENC, [minirust.deep_clone(s_)])
+                    dec = interp().local_call(DEC, [enc])
+                except minirust.Panics as ex:
+                    bad_exact.append('%s: encoding / decoding panics (%s)' % (what, ex))
+                    continue
+                if not (isinstance(dec, tuple) and dec[0] == 'Ok'):
+                    bad_exact.append('%s: decoding the encoded scalar fails with %r' % (what, dec))
+                elif C07._s4_value(dec[1]) != C07._s4_value(s_) or any(d['flags'] & 2 for d in dec[1]['0']):
+                    bad_exact.append('%s comes back as %s%s' % (what, C07._s4_value(dec[1]), ' flagged approximate' if any(d['flags'] & 2 for d in dec[1]['0']) else ''))
+        w = cmath.exp(1j * cmath.pi / 4)
+
+        def cval(s4):
+            return sum(complex(float(c)) * w ** i for i, c in enumerate(C07._s4_value(s4)))
+        for co in ([(2, 0), (1, 0), (0, 0), (0, 0)], [(3, 0), (0, 0), (-1, 0), (0, 0)], [(1, -2), (1, -2), (1, -2), (1, -2)], [(5, -3), (-3, 1), (0, 0), (7, 0)], [(0, 0), (0, 0), (0, 0), (0, 0)],
+                   [(-7, 3), (0, 0), (0, 0), (1, 0)], [(1, 40), (0, 0), (3, 38), (0, 0)], [(1, -40), (1, -41), (0, 0), (0, 0)], [(0, 0), (0, 0), (0, 0), (-3, 0)]):
+            s_ = mk(co)
+            try:
+                enc = interp().local_call(ENC, [minirust.deep_clone(s_)])
+                dec = interp().local_call(DEC, [enc])
+                n += 1
+            except minirust.Panics as ex:
+                bad_float.append('the scalar with coefficients %s: encoding / decoding panics (%s)' % (co, ex))
+                continue
+            except (minirust.NoEval, minirust.Proceed) as ex:
+                float_declined = str(ex)[:100]        # (the polar branch goes through the float -> Phase conversion of the external num crate: not modelled)
+                break
+            if not (isinstance(dec, tuple) and dec[0] == 'Ok'):
+                bad_float.append('the scalar with coefficients %s: decoding fails with %r' % (co, dec))
+                continue
+            z0, z1 = cval(s_), cval(dec[1])
+            if abs(z0 - z1) > 1e-9 * max(1e-300, abs(z0)) and not (z0 == 0 and z1 == 0):
+                bad_float.append('the scalar %s comes back as %s' % (z0, z1))
+        ck.ob('E3-scalar-json', 'exact-forms-round-trip-exactly', not bad_exact, site, ('; '.join(bad_exact[:2]) + ' [%d cases]' % len(bad_exact)) if bad_exact else '', sample={'scalars': n})
+        ck.ob('E3-scalar-json', 'the-one-marker', not bad_marker, ck.site(ISONE) if ck.has_fn(ISONE) else site, ('; '.join(bad_marker[:2]) + ' [%d cases]' % len(bad_marker)) if bad_marker else '')
+        if float_declined is None:
+            ck.ob('E3-scalar-json', 'other-scalars-round-trip-to-1e-9', not bad_float, site, ('; '.join(bad_float[:2]) + ' [%d cases]' % len(bad_float)) if bad_float else '')
+        else:
+            ck.note('E3-scalar-json: the polar (floating-point) branch of the scalar encoder is not evaluated (%s); decided structurally by R-LOSSY / R-MARKER' % float_declined)
+        ck.floor('E3-scalar-json-scalars', n, 136)
+    except (minirust.NoEval, minirust.Proceed, TypeError, KeyError, IndexError, AttributeError, ValueError) as ex:
+        ck.ob3('E3-scalar-json', 'round-trip', None, site, 'the scalar conversions are not evaluable (%s: %s)' % (type(ex).__name__, str(ex)[:160]))
+
+
 def run(ck, **kw):
     _run_own(ck)
+    _file_rules(ck)
+    _scalar_roundtrip(ck)
     ck.include('C09', 'the decoder rebuilds the graph with named vertex insertion and edge insertion of the back ends (hash_graph.rs is anchored here too)')
